@@ -1,6 +1,7 @@
 /* C14: secp256k1_dleq_verify - gate and challenge hash, real code.
  * Oracles with logs: secp256k1_ecmult (three calls), secp256k1_gej_add_var, secp256k1_ge_set_all_gej_var.
- * sha256_write/_finalize replaced by the stream contracts.
+ * sha256_write/_finalize replaced by the STREAM contracts (kept at stream level for cost; this pins "tagged hash through the midstate and
+ * sha256_write/finalize": a behaviour-preserving re-implementation of the tagged hash would need this unit to be re-stated - audit #31).
  *   R1 = s*G - e*P1 ; R2 = s*gen2 - e*P2 ; R1 or R2 infinity => 0 (nothing hashed)
  *   e' = int(TaggedHash("DLEQ", cbytes(P1) || cbytes(gen2) || cbytes(P2) || cbytes(R1) || cbytes(R2))) mod n ; accept <=> e' == e (as scalars) */
 #define LOG_GEJ_ADD
@@ -11,16 +12,21 @@
 #include "src/secp256k1.c"
 #include "post.h"
 #ifndef VERIF_NATIVE
-static wide modp(wide v) { wide p = P_(); int i; for (i = 0; i < 2; i++) if (v >= p) v -= p; return v; }   /* operands < 3p (magnitude 1) */
+static wide modp(wide v) { wide p = P_(); int i; for (i = 0; i < 9; i++) if (v >= p) v -= p; return v; }   /* operands < 10p (magnitude <= 4) */
+/* the three multiplications are identified by their OPERAND VALUES, not by call order; a missing generator scalar and a zero one are the same */
+struct em_call { wide na, ng; wide ax, ay, az; int ainf; secp256k1_gej r; };
+static int em_matches(const struct em_call *c, wide na, wide ng, const secp256k1_ge *pt) {
+    return c->na == na && c->ng == ng && !c->ainf && c->az == 1 && c->ax == modp(fval(&pt->x)) && c->ay == modp(fval(&pt->y));
+}
 static wide negn(wide v) { return v == 0 ? 0 : N_() - v; }
 static void be_bytes(unsigned char *out, wide v) { int i; for (i = 0; i < 32; i++) out[i] = (unsigned char)(v >> (8 * (31 - i))); }
 #endif
 void h_dleq_verify(void) {
     INPUT(secp256k1_scalar, s); INPUT(secp256k1_scalar, e); INPUT(secp256k1_ge, p1); INPUT(secp256k1_ge, gen2); INPUT(secp256k1_ge, p2); INPUT(uint64_t, wpos);
     secp256k1_hash_ctx hc; secp256k1_ge p1_0, gen2_0, p2_0; int ret;
-    /* representation invariants: scalars < n; the three points are finite with magnitude-1 coordinates (they come from
-     * eckey_pubkey_parse / pubkey_load at the only call site, see C14.verify) */
-    __CPROVER_assume(scalar_ok(&s) && scalar_ok(&e) && ge_ok1(&p1) && ge_ok1(&gen2) && ge_ok1(&p2) && !p1.infinity && !gen2.infinity && !p2.infinity);
+    /* representation invariants: scalars < n; the three points are finite group elements in representation range (x magnitude
+     * <= 4, y magnitude <= 3: eckey_pubkey_parse hands out y of magnitude 2 after a parity flip) */
+    __CPROVER_assume(scalar_ok(&s) && scalar_ok(&e) && ge_ok(&p1) && ge_ok(&gen2) && ge_ok(&p2) && !p1.infinity && !gen2.infinity && !p2.infinity);
     p1_0 = p1; gen2_0 = gen2; p2_0 = p2;
     hc.fn_sha256_compression = secp256k1_sha256_transform;
     g_em_n = 0; g_aj_n = 0; g_sa_n = 0; HASHLOG_RESET(); g_we = 0; g_we2 = 0; g_wpos = wpos;
@@ -29,15 +35,24 @@ void h_dleq_verify(void) {
 #ifndef VERIF_NATIVE
     {
         wide n = N_(), ev = sval(&e), sv = sval(&s);
-        __CPROVER_assert(g_em_n == 3 && g_aj_n == 1, "C14 dleq_verify: three multiplications, one addition");
-        __CPROVER_assert(g_em_hna0 && g_em_hng0 && sval(&g_em_na0) == negn(ev) && sval(&g_em_ng0) == sv && FE_EQ(g_em_a0.x, p1_0.x) && FE_EQ(g_em_a0.y, p1_0.y) && fval(&g_em_a0.z) == 1 && !g_em_a0.infinity, "C14 dleq_verify: R1 = s*G + (-e)*P1");
-        __CPROVER_assert(g_em_hna1 && g_em_hng1 && sval(&g_em_na1) == negn(ev) && sval(&g_em_ng1) == 0 && FE_EQ(g_em_a1.x, p2_0.x) && FE_EQ(g_em_a1.y, p2_0.y) && fval(&g_em_a1.z) == 1 && !g_em_a1.infinity, "C14 dleq_verify: second term of R2 = (-e)*P2, no generator part");
-        __CPROVER_assert(g_em_hna2 && g_em_hng2 && sval(&g_em_na2) == sv && sval(&g_em_ng2) == 0 && FE_EQ(g_em_a2.x, gen2_0.x) && FE_EQ(g_em_a2.y, gen2_0.y) && fval(&g_em_a2.z) == 1 && !g_em_a2.infinity, "C14 dleq_verify: first term of R2 = s*gen2, no generator part");
-        __CPROVER_assert(GEJ_EQ(g_aj_a0, g_em_r2) && GEJ_EQ(g_aj_b0, g_em_r1), "C14 dleq_verify: R2 is the sum of the two terms");
-        if (g_em_r0.infinity || g_aj_r0.infinity) { __CPROVER_assert(ret == 0 && g_fin_n == 0 && g_h_fresh == 1, "C14 dleq_verify: R1 or R2 at infinity => 0, nothing hashed"); REACH("dleq_verify commitment at infinity"); }
+        struct em_call c[3]; int i1 = -1, ia = -1, ib = -1, k;
+#define FILL(i) c[i].na = g_em_hna##i ? sval(&g_em_na##i) : 0; c[i].ng = g_em_hng##i ? sval(&g_em_ng##i) : 0; c[i].ax = modp(fval(&g_em_a##i.x)); c[i].ay = modp(fval(&g_em_a##i.y)); \
+                c[i].az = modp(fval(&g_em_a##i.z)); c[i].ainf = g_em_a##i.infinity; c[i].r = g_em_r##i
+        FILL(0); FILL(1); FILL(2);
+        __CPROVER_assert(g_em_n == 3 && g_aj_n == 1, "C14 dleq_verify: R1 and the two terms of R2 are three multiplications, R2 one addition");
+        for (k = 0; k < 3; k++) { if (em_matches(&c[k], negn(ev), sv, &p1_0)) i1 = k; }
+        for (k = 0; k < 3; k++) { if (k != i1 && em_matches(&c[k], negn(ev), 0, &p2_0)) ia = k; }
+        for (k = 0; k < 3; k++) { if (k != i1 && k != ia && em_matches(&c[k], sv, 0, &gen2_0)) ib = k; }
+        __CPROVER_assert(i1 >= 0, "C14 dleq_verify: one multiplication computes R1 = s*G + (-e)*P1");
+        __CPROVER_assert(ia >= 0, "C14 dleq_verify: one multiplication computes (-e)*P2 (no generator part)");
+        __CPROVER_assert(ib >= 0, "C14 dleq_verify: one multiplication computes s*gen2 (no generator part)");
+        if (i1 < 0 || ia < 0 || ib < 0) return;
+        __CPROVER_assert((GEJ_EQ(g_aj_a0, c[ib].r) && GEJ_EQ(g_aj_b0, c[ia].r)) || (GEJ_EQ(g_aj_a0, c[ia].r) && GEJ_EQ(g_aj_b0, c[ib].r)), "C14 dleq_verify: R2 is the sum of the two terms");
+#define g_R1 (c[i1].r)
+        if (g_R1.infinity || g_aj_r0.infinity) { __CPROVER_assert(ret == 0 && g_fin_n == 0 && g_h_fresh == 1, "C14 dleq_verify: R1 or R2 at infinity => 0, nothing hashed"); REACH("dleq_verify commitment at infinity"); }
         else {
             wide xs[5], ys[5]; unsigned char xb[32]; int j;
-            __CPROVER_assert(g_sa_n == 1 && GEJ_EQ(g_sa_a0, g_em_r0) && GEJ_EQ(g_sa_a1, g_aj_r0), "C14 dleq_verify: (R1, R2) converted to affine");
+            __CPROVER_assert(g_sa_n == 1 && GEJ_EQ(g_sa_a0, g_R1) && GEJ_EQ(g_sa_a1, g_aj_r0), "C14 dleq_verify: (R1, R2) converted to affine");
             __CPROVER_assert(g_fin_n == 1 && g_w_started && g_w_b0 == 64 && g_w_s0 == 0x8cc4beacul && g_w_s7 == 0x577fd564ul && g_w_fin && g_w_end == 64 + 165, "C14 dleq_verify: one challenge hash from the DLEQ midstate over 5 compressed points");
             xs[0] = modp(fval(&p1_0.x)); ys[0] = modp(fval(&p1_0.y)); xs[1] = modp(fval(&gen2_0.x)); ys[1] = modp(fval(&gen2_0.y)); xs[2] = modp(fval(&p2_0.x)); ys[2] = modp(fval(&p2_0.y));
             xs[3] = modp(fval(&g_sa_r0.x)); ys[3] = modp(fval(&g_sa_r0.y)); xs[4] = modp(fval(&g_sa_r1.x)); ys[4] = modp(fval(&g_sa_r1.y));
